@@ -69,6 +69,7 @@ struct Config {
     int max_steps = 20000;    // per run; exceeded => livelock/step-limit verdict
     int spurious_budget = 2;  // spurious cv wake-ups per run
     int casfail_budget = 2;   // spurious weak-CAS failures per run
+    int latewake_budget = 2;  // notified timed cv waits that nevertheless report a time-out, per run
     int stick_pct = 70;       // sticky strategy: probability (percent) to continue the same thread
     std::vector<int> replay;  // strategy 3: recorded decisions
 };
